@@ -117,7 +117,7 @@ def run(res):
         "max(silent + 20 min, last naming + 5 min). evaluations = handler events of the replayed runs; distinct = distinct scenarios.",
         ["one-way latency <= 200 ms (round trip below NODE_TIMEOUT = 0.5 s: above it bootstrap discards late answers as unsolicited)",
          "the timed statements over unbounded runs are decided on the explored runs, not proved (partial)"],
-        post=post, sim_timeout=1500, max_validate_events=6000)
+        post=post, sim_timeout=1500, max_validate_events=5000)
 
 
 def replay(path):
